@@ -96,6 +96,12 @@ func warnInertDeclarations(module *ast.Module) {
 	}
 }
 
+// compiledRouteKey identifies a route's bytecode. Method and path together:
+// keyed by path alone, GET /x and POST /x shared the last-compiled body.
+func compiledRouteKey(route *ast.Route) string {
+	return route.Method.String() + " " + route.Path
+}
+
 // setupRoutes handles the common logic of determining execution mode, compiling routes,
 // and setting up the router. Used by both startServer and prepareDevServer.
 // filePath is the path to the source file, used for resolving relative module imports.
@@ -151,7 +157,7 @@ func setupRoutes(module *ast.Module, filePath string, forceInterpreter ...bool) 
 					useCompiler = false
 					break
 				}
-				compiledRoutes[route.Path] = bytecode
+				compiledRoutes[compiledRouteKey(route)] = bytecode
 			}
 		}
 	}
@@ -171,7 +177,7 @@ func setupRoutes(module *ast.Module, filePath string, forceInterpreter ...bool) 
 	if useCompiler {
 		for _, item := range module.Items {
 			if route, ok := item.(*ast.Route); ok {
-				bytecode := compiledRoutes[route.Path]
+				bytecode := compiledRoutes[compiledRouteKey(route)]
 				regErr := registerCompiledRoute(router, route, bytecode, wsServer.GetHub())
 				if regErr != nil {
 					printWarning(fmt.Sprintf("Failed to register route %s: %v", route.Path, regErr))
